@@ -127,40 +127,56 @@ def work(item):
     def bad(what):
         acc.d["violations"].append({"key": f"c12:{topo.name}:{hist}:{what[:50]}", "group": what[:60], "what": f"{topo.describe()} | history {list(hist)}: {what}", "replay": rec})
 
+    def session(sym):
+        s = Session(topo, seed, sym)
+        probs = []
+        first, problems = s.do("N(X,0)")
+        probs += problems
+        for op in hist:
+            _, problems = s.do(op)
+            probs += [f"after {op}: {p}" for p in problems]
+        again, problems = s.do("N(X,0)")
+        probs += problems
+        return first, again, probs
+
     for sym in (True, False):
         try:
-            s = Session(topo, seed, sym)
-            first, problems = s.do("N(X,0)")
-            for p in problems:
-                bad(p)
-            for op in hist:
-                _, problems = s.do(op)
-                for p in problems:
-                    bad(f"after {op}: {p}")
-            again, problems = s.do("N(X,0)")
-            for p in problems:
-                bad(p)
+            prs = list(symx.explore(lambda: session(sym))) if sym else None
+            if not sym:
+                class _P:  # float twin: a single concrete run
+                    exc, pc = None, []
+                try:
+                    _P.value = session(False)
+                except Exception as e:  # noqa
+                    _P.exc = e
+                prs = [_P]
         except (symx.UnsupportedOp, symx.Inconclusive) as e:
             acc.inconclusive(f"{topo.name}: {e}")
             continue
-        except Exception as e:  # noqa
-            bad(f"raised {type(e).__name__}: {str(e)[:200]}")
-            continue
-        acc.d["encodings"] += 1
-        if sym:
-            for key in first:
-                a, b = symx.leaves(first[key]), symx.leaves(again[key])
-                if len(a) != len(b):
-                    bad(f"{key}: result size changed")
-                    continue
-                for i, (x, y) in enumerate(zip(a, b)):
-                    ok = acc.query(prover, topo, "numpy-symbolic", f"repeat after {list(hist)}: {key[1]}_{key[0]}[{i}]", x.t == y.t, (), (), lambda m: {"key": f"c12:{topo.name}:{hist}:repeat", "group": "not repeatable",
-                                   "what": f"{topo.describe()} | history {list(hist)}: stepping again from the same values gives a different {key[1]}_{key[0]}[{i}]", "replay": rec})
-        else:
-            acc.d["extra"]["float_twins"] += 1
-            for key in first:
-                if not np.array_equal(np.asarray(first[key], dtype=float), np.asarray(again[key], dtype=float), equal_nan=True):
-                    bad(f"float twin: stepping again from the same values gives different {key[1]}_{key[0]}")
+        for pr in prs:
+            if pr.exc is not None:
+                bad(f"raised {type(pr.exc).__name__}: {str(pr.exc)[:200]}")
+                continue
+            first, again, problems = pr.value
+            for p in problems:
+                bad(p)
+            acc.d["encodings"] += 1
+            if sym:
+                acc.d["paths"] += 1
+                for key in first:
+                    a, b = symx.leaves(first[key]), symx.leaves(again[key])
+                    if len(a) != len(b):
+                        bad(f"{key}: result size changed")
+                        continue
+                    for i, (x, y) in enumerate(zip(a, b)):
+                        acc.query(prover, topo, "numpy-symbolic", f"repeat after {list(hist)}: {key[1]}_{key[0]}[{i}]", x.t == y.t, (), pr.pc,
+                                  lambda m, key=key, i=i: {"key": f"c12:{topo.name}:{hist}:repeat", "group": "not repeatable",
+                                                           "what": f"{topo.describe()} | history {list(hist)}: stepping again from the same values gives a different {key[1]}_{key[0]}[{i}]", "replay": rec})
+            else:
+                acc.d["extra"]["float_twins"] += 1
+                for key in first:
+                    if not np.array_equal(np.asarray(first[key], dtype=float), np.asarray(again[key], dtype=float), equal_nan=True):
+                        bad(f"float twin: stepping again from the same values gives different {key[1]}_{key[0]}")
     return acc.done(prover)
 
 
